@@ -139,7 +139,7 @@ fn one_file(out: &mut Out, rng: &mut Rng, idx: u64) {
                 _ => { name = "read_surface (1x1 view)"; let mut b = [0u8; 16]; catch(move || d.read_surface(ImageViewMut::new(&mut b[..4], Size::new(1, 1), ColorFormat::RGBA_U8).unwrap())) }
             }
         };
-        out.count(&format!("op_{}", name.split(' ').next().unwrap()));
+        out.count(&format!("op_{}", name.split(' ').next().unwrap())); out.count("oracle_calls");
         let Some(r) = r else { println!("IMPL-VIOLATION panic: {}", describe(name)); return; };
         if t0.elapsed().as_secs() >= 10 { println!("IMPL-VIOLATION slow (>10s): {}", describe(name)); }
         match &r {
@@ -173,7 +173,7 @@ fn strict_io(out: &mut Out, rng: &mut Rng, idx: u64) {
     let color = COLORS[rng.below(12) as usize];
     let mut buf = vec![0u8; size.width as usize * size.height as usize * color.bytes_per_pixel() as usize];
     let r = catch(|| dec.read_surface(ImageViewMut::new(&mut buf, size, color).unwrap()));
-    out.count("strict_io");
+    out.count("strict_io"); out.count("oracle_calls");
     match r {
         None => println!("IMPL-VIOLATION panic: truncated full decode {:?} {:?} cut {cut} of {first}", format, size),
         Some(Err(DecodingError::Io(_))) => {}
